@@ -33,6 +33,12 @@ pub struct Knobs {
     /// its peer stays frozen (a peer descheduled for a long time), which
     /// loom's yield (always lets the others run) cannot produce
     pub stall: u32,
+    /// the first `lock_spin` failed lock acquisitions of every thread in an
+    /// execution return their failure at once instead of blocking until the
+    /// lock word is written: the retry loop of the lock (`spin_cond`) is then
+    /// really executed, phase after phase, against a holder that stays in its
+    /// critical section
+    pub lock_spin: u32,
 }
 
 impl Default for Knobs {
@@ -45,6 +51,7 @@ impl Default for Knobs {
             track: true,
             nowait: true,
             stall: 0,
+            lock_spin: 0,
         }
     }
 }
@@ -84,6 +91,7 @@ pub(crate) struct PerThread {
     pub peer: Vec<usize>,
     pub nowait: Option<(NoWait, u64, Vec<usize>)>,
     pub unyielded: u32,
+    pub lockspun: u32,
     /// lock words (addresses) this thread currently holds
     pub holds: Vec<usize>,
 }
@@ -101,6 +109,10 @@ pub(crate) struct Exec {
     pub threads: Vec<(ThreadId, PerThread)>,
     pub regions: BTreeMap<usize, Region>,
     pub cells: BTreeMap<usize, Rc<loom::cell::UnsafeCell<()>>>,
+    /// one loom atomic per plain cell, bumped at every `UnsafeCell::get()`:
+    /// makes two threads' accesses to the same cell dependent operations, so
+    /// that the exploration tries both orders of them
+    pub touches: BTreeMap<usize, Rc<loom::sync::atomic::AtomicUsize>>,
     pub counters: Counters,
     pub violation: Option<String>,
     pub active: bool,
@@ -122,6 +134,7 @@ impl Exec {
             threads: Vec::new(),
             regions: BTreeMap::new(),
             cells: BTreeMap::new(),
+            touches: BTreeMap::new(),
             counters: Counters::default(),
             violation: None,
             active: false,
@@ -168,6 +181,7 @@ pub(crate) fn with_thread<R>(f: impl FnOnce(&mut Exec, usize) -> R) -> R {
                         peer: Vec::new(),
                         nowait: None,
                         unyielded: 0,
+                        lockspun: 0,
                         holds: Vec::new(),
                     },
                 ));
@@ -229,6 +243,7 @@ pub fn end_execution() {
         e.active = false;
         e.loom_clock = None;
         e.cells.clear();
+        e.touches.clear();
         e.regions.clear();
         e.threads.clear();
     });
@@ -397,6 +412,19 @@ pub(crate) fn should_yield() -> bool {
             false
         } else {
             true
+        }
+    })
+}
+
+/// Should this failed lock acquisition return at once (and be retried by the
+/// lock's own loop) rather than block until the word is written?
+pub(crate) fn take_lock_spin() -> bool {
+    with_thread(|e, i| {
+        if e.threads[i].1.lockspun < e.knobs.lock_spin {
+            e.threads[i].1.lockspun += 1;
+            true
+        } else {
+            false
         }
     })
 }
